@@ -56,7 +56,7 @@ def main(tier, seed):
     rounds = 1 if tier == "quick" else 20
     for metric in metrics:
         for rnd in range(rounds):
-            N, dim = rng.randint(10, 16), rng.randint(1, 3)
+            N, dim = (rng.randint(10, 16) if rng.random() < 0.5 else rng.randint(17, 24)), rng.randint(1, 3)
             dom = T.domain(metric)
             if metric == "hamming" or rng.random() < 0.2:
                 X = np.array([[float(rng.randint(1, 3)) for _ in range(dim)] for _ in range(N)])   # lattice: ties
@@ -109,12 +109,20 @@ def main(tier, seed):
             Xtr, Xte, Ytr, Yte, Itr, Ite = s.split_with_index(X, Y, pct, random_state=rng.randint(0, 10 ** 6))
             if len(set(Ytr.tolist())) < 2:
                 continue
-            for kname in ("sup", "unsup", "semi", "semi_arbitrary"):
+            for kname in ("sup", "unsup", "unsup_k", "semi", "semi_arbitrary"):
                 desc = dict(model=kname, metric=metric, format=fmt, X=X.tolist(), Y=Y.tolist(), I_train=Itr.tolist(), I_test=Ite.tolist())
                 try:
                     if kname == "sup":
                         a = SupervisedOPF(distance=metric); a.fit(Xtr, Ytr); pa = a.predict(Xte)
                         b = SupervisedOPF(distance=metric, pre_computed_distance=fpath); b.fit(Xtr, Ytr, Itr); pb = b.predict(Xte, Ite)
+                    elif kname == "unsup_k":
+                        # a large neighbourhood (k = 8 .. n-1): sums of many kernel terms, evaluated alike on both paths
+                        if len(Xtr) < 10:
+                            continue
+                        kk = min(len(Xtr) - 1, rng.randint(8, 11))
+                        a = UnsupervisedOPF(min_k=kk, max_k=kk, distance=metric); a.fit(Xtr, Ytr); pa = a.predict(Xte)
+                        b = UnsupervisedOPF(min_k=kk, max_k=kk, distance=metric, pre_computed_distance=fpath); b.fit(Xtr, Ytr, Itr); pb = b.predict(Xte, Ite)
+                        pa, pb = [list(map(int, q)) for q in pa], [list(map(int, q)) for q in pb]
                     elif kname == "unsup":
                         a = UnsupervisedOPF(min_k=1, max_k=3, distance=metric); a.fit(Xtr, Ytr); pa = a.predict(Xte)
                         b = UnsupervisedOPF(min_k=1, max_k=3, distance=metric, pre_computed_distance=fpath); b.fit(Xtr, Ytr, Itr); pb = b.predict(Xte, Ite)
